@@ -298,6 +298,19 @@ def dispatcher(repo, rep):
                 continue
             sets[nm] = frozenset(repo.const(fi.module, e) for e in n.value.elts)
             tag_of[nm] = tag
+    # the same identifying sets hoisted to module level (VARS_ERA5 = {...}): every name subtracted-from in a test is looked up there too
+    for n in ast.walk(fi.node):
+        if isinstance(n, ast.BinOp) and isinstance(n.op, ast.Sub) and isinstance(n.left, ast.Name) and n.left.id not in sets:
+            v_ = fi.module.consts.get(n.left.id)
+            if v_ is None and n.left.id in fi.module.imports:
+                src_ = repo.modules.get(fi.module.imports[n.left.id][0])
+                v_ = src_.consts.get(fi.module.imports[n.left.id][1]) if src_ is not None else None
+            if isinstance(v_, ast.Call) and call_name(v_) in ("set", "frozenset") and len(v_.args) == 1 and isinstance(v_.args[0], (ast.Set, ast.List, ast.Tuple)):
+                v_ = v_.args[0]
+            tag = next((t for t in TAGS if t in n.left.id.lower()), None)
+            if isinstance(v_, (ast.Set, ast.List, ast.Tuple)) and tag is not None:
+                sets[n.left.id] = frozenset(repo.const(fi.module, e) for e in v_.elts)
+                tag_of[n.left.id] = tag
     # the if / elif chain
     chain = []
     disp = None
@@ -373,6 +386,7 @@ def dispatcher(repo, rep):
     else:
         rep.ok("R-C12-3", f"{fi.file}:{chain[-1][2].lineno} read_dataset", "else: raise ValueError", "unknown conventions rejected")
     order = [c for c in chain if c[0] in sets]
+    rep.floor("R-C12-3", "identifying name sets of the dispatcher", len(order), 6)
     for i, (a, ta, na) in enumerate(order):
         for b, tb, nb in order[i + 1:]:
             if sets[a] < sets[b]:
